@@ -28,6 +28,7 @@ THEOREMS = [
     "C20_py_score_injective_partial", "C20_py_score_minor16_refuted",
     "C20_platform_set_order_refuted", "C20_tag_score_set_order_free_partial", "C20_usability_set_order_free",
     "C20_glibc_version_roundtrip",
+    "C20_wheel_fields_roundtrip", "C20_supported_file_eligible_partial", "C20_foreign_file_rejected",
 ]
 RULE = ("interpreter configurations (CPython 2.6-3.20, both old ABI flags, glibc None/2.0-2.45/1.x/3.x, six "
         "machines; ~15% incoherent ones such as foreign PLATFORM_TAGS) are installed into "
@@ -40,7 +41,10 @@ RULE = ("interpreter configurations (CPython 2.6-3.20, both old ABI flags, glibc
         "symbol, int()) are compared with the extracted "
         "Coq model; the specification sys_tags is compared, as an ordered list, with packaging.tags.sys_tags() "
         "for the running interpreter and with packaging's cpython_tags/compatible_tags/_manylinux.platform_tags "
-        "for generated configurations; all tags of the running interpreter are run as single-tag wheels. "
+        "for generated configurations; all tags of the running interpreter are run as single-tag wheels; PEP 427 file "
+        "names with and without build tags (numeric/alphanumeric; python tags that are and are not ABI tags; 4/7 parts, "
+        "directory prefix) are read by the model itself (wheel_fields_of) and compared field by field, then through "
+        "check_usability and sort_candidates. "
         "Non-trivial = a wheel candidate (U/T), a list with two candidates of equal version (S), a manylinux or "
         "legacy tag (M), a coherent configuration (G/C); distinct = distinct (configuration, file names).")
 TRUSTED_BASE = [
@@ -350,6 +354,45 @@ def gen_filename(rng, cfg, version: Optional[str] = None) -> str:
                                          compress(rng, gen_py_tag, cfg, 0.3), gen_abi_tag(rng, cfg), compress(rng, gen_plat_tag, cfg, 0.3))
 
 
+BUILD_TAGS = ["", "", "1", "7", "2b", "20240101", "1a", "0", "10", "3_x"]
+
+
+def gen_wheel_name(rng, cfg, version: Optional[str] = None, plain: bool = False) -> str:
+    """PEP 427 names name-version[-build]-python-abi-platform.whl: numeric and alphanumeric build tags, python tags
+    that are ABI tags of the configuration (cp<major><minor>) and python tags that are not (py3, older cp), plus
+    (unless plain) names with 4 / 7 dash-separated parts, a directory prefix, an upper-case extension"""
+    M, m = cfg["major"], cfg["minor"]
+    v = version or rng.choice(["1.0", "1.0", "1.0.0", "2.0", "0.9", "1.0rc1", "1.0.post1"])
+    name = rng.choice(["x", "demo_pkg", "My_Proj", "a.b"])
+    build = rng.choice(BUILD_TAGS)
+    r = rng.random()
+    if r < 0.35:
+        py = rng.choice([cfg["abi_tags"][-1] if cfg["abi_tags"] else "cp%d%d" % (M, m), "cp%d%d" % (M, m), "abi%d" % M])   # python tag that is also an ABI tag
+    elif r < 0.75:
+        py = rng.choice(["py%d" % M, "py%d%d" % (M, m), "cp%d%d" % (M, max(m - 1, 0)), "py2.py3", "cp%d" % M])
+    else:
+        py = compress(rng, gen_py_tag, cfg, 0.3)
+    abi = rng.choice(["none", "none", "abi3", cfg["abi_tags"][-1] if cfg["abi_tags"] else "none", "cp%d%d" % (M, m)]) if rng.random() < 0.7 else gen_abi_tag(rng, cfg)
+    plat = rng.choice(["any", "any", "linux_" + cfg["arch"], "manylinux2014_" + cfg["arch"], "manylinux_2_17_" + cfg["arch"],
+                       "manylinux_2_17_%s.manylinux2014_%s" % (cfg["arch"], cfg["arch"]), "win_amd64"]) if rng.random() < 0.7 else compress(rng, gen_plat_tag, cfg, 0.3)
+    parts = [name, v] + ([build] if build else []) + [py, abi, plat]
+    if any("-" in p or "/" in p or "\\" in p for p in parts):
+        parts = [name, v] + ([build] if build else []) + ["py%d" % M, "none", "any"]
+    fn = "-".join(parts) + ".whl"
+    if plain:
+        return fn
+    k = rng.random()
+    if k < 0.05:
+        return "-".join(parts[:4]) + ".whl"                       # too few parts
+    if k < 0.12:
+        return "-".join(parts[:2] + ["9", "8"][: 7 - len(parts)] + parts[2:]) + ".whl"   # 7 parts: nothing is popped
+    if k < 0.17:
+        return rng.choice(["dir/", "a/b/", "/abs/"]) + fn
+    if k < 0.20:
+        return fn[:-4] + ".WHL"
+    return fn
+
+
 def direct_candidate(rng, R, cfg) -> Any:
     """Candidates the repositories build without a file name (py_version None / empty tag set / abi None / SOURCE)."""
     from packaging.version import Version
@@ -482,6 +525,43 @@ def correspondence(ctx: Ctx) -> None:
         obs = (sorted(c.py_version.py_versions), c.abi, sorted(c.platforms))
         add("W {} {} {}".format(hx(pyf), hx(abif), hx(platf)), "W", (pyf, abif, platf), obs, "." in pyf + platf)
 
+    # (4b) PEP 427 file names end to end: the model reads the file name itself (wheel_fields_of), then
+    #      check_usability / sort_candidates on what it read - with and without build tags
+    for _ in range(ctx.n(900, 40000)):
+        cfg, raw = gen_cfg(rng, R)
+        fn = gen_wheel_name(rng, cfg)
+        with configured(R, cfg):
+            c = R.filename_to_candidate(None, fn)
+            he, ap = rng.random() < 0.2, rng.random() < 0.5
+            r = None if c is None else R.check_usability(None, c, has_equality=he, allow_prereleases=ap)
+        obs = "N" if c is None else (c.name, c.extra_sort_info, sorted(c.py_version.py_versions), c.abi, sorted(c.platforms), c.filename)
+        add("F " + hx(fn), "F", fn, obs, c is not None and bool(c.extra_sort_info))
+        if c is not None:
+            add("UF {} {} {} {} {}".format(cfg_tokens(cfg), enc440.ver_token(c.version), hx(fn), int(he), int(ap)), "UF",
+                (json.dumps(cfg, sort_keys=True), fn, he, ap), "OK" if r is None else r.name, bool(c.extra_sort_info))
+    for _ in range(ctx.n(500, 20000)):
+        cfg, raw = gen_cfg(rng, R)
+        version = rng.choice(["1.0", "1.0", "2.0"])
+        files = []
+        for _i in range(rng.choice([2, 3, 4, 6])):
+            if rng.random() < 0.2:
+                files.append("x-{}{}".format(version, rng.choice([".tar.gz", ".zip"])))
+            else:
+                f = gen_wheel_name(rng, cfg, version if rng.random() < 0.8 else None, plain=True)
+                plats = f[:-4].split("-")[-1].split(".")
+                if "any" in plats and len(set(plats)) > 1:
+                    continue      # set-iteration order matters there (platform-set-order finding): covered by the T cases
+                files.append(f)
+        with configured(R, cfg):
+            cands = [R.filename_to_candidate(None, f) for f in files]
+            if any(c is None for c in cands) or len(cands) < 2:
+                continue
+            out = exc_name(lambda: [next(i for i, c in enumerate(cands) if c is x) for x in R.sort_candidates(cands)])
+        items = " ".join("{} {} {} {}".format(i, "W" if f.endswith(".whl") else "D", enc440.ver_token(c.version), hx(f))
+                         for i, (f, c) in enumerate(zip(files, cands)))
+        add("SF {} {} {}".format(cfg_tokens(cfg), len(files), items), "SF", (json.dumps(cfg, sort_keys=True), tuple(files)),
+            "OK " + " ".join(map(str, out[1])) if out[0] == "OK" else "ERR " + out[1], any(c.extra_sort_info for c in cands))
+
     # (5) check_usability / tag_score on candidates; (6) sort_candidates on lists
     n_u = ctx.n(2500, 120000)
     for _ in range(n_u):
@@ -579,7 +659,7 @@ def correspondence(ctx: Ctx) -> None:
         return
     where = {"I": "py-int", "P": "impl-major-minor", "Y": "py-version-compat-score", "M": "manylinux-policy", "W": "wheel-tag-sets",
              "U": "check-usability", "T": "tag-score", "S": "sort-candidates", "G": "sys-tags-spec", "C": "module-constants",
-             "L": "glibc-version"}
+             "L": "glibc-version", "F": "wheel-file-name", "UF": "file-usability", "SF": "file-sort"}
     for (kind, case, obs, nontriv), ans, line in zip(expect, answers, lines):
         ctx.count("kind:" + kind)
         got: Any = ans
@@ -595,10 +675,29 @@ def correspondence(ctx: Ctx) -> None:
                 i += 1
             m = int(toks[i])
             got = (pys, abi, sorted(unhx(t) for t in toks[i + 1:i + 1 + m]))
+        elif kind == "F":
+            toks = ans.split()
+            if toks[0] == "N":
+                got = "N"
+            else:
+                name, build = unhx(toks[1]), unhx(toks[3])
+                n = int(toks[4])
+                pys = sorted(unhx(t) for t in toks[5:5 + n])
+                i = 5 + n
+                abi = None
+                if toks[i] == "S":
+                    abi = unhx(toks[i + 1]); i += 2
+                else:
+                    i += 1
+                m = int(toks[i])
+                plats = sorted(unhx(t) for t in toks[i + 1:i + 1 + m])
+                got = (name, build, pys, abi, plats, unhx(toks[i + 1 + m]))
         elif kind == "G":
             toks = ans.split()
             got = (toks[0], [tuple(unhx(x) for x in t.split(":")) for t in toks[1:]])
             ctx.count("sys_tags-size", len(got[1]))
+        if kind == "UF":
+            ctx.count("result:UF:" + obs)
         if kind in ("U", "T", "S"):
             ctx.count("result:" + kind + ":" + (obs if kind == "U" else obs.split()[0] + ("" if obs.startswith("OK") else " " + obs.split()[1])))
         ctx.case(key=(kind, case), nontrivial=nontriv,
@@ -702,6 +801,31 @@ def witness_violates(R, w: Dict[str, Any]) -> bool:
 
 # ------------------------------------------------------------------------------------------
 # the independent oracle: the property statement on the implementation only (never calls the model)
+
+
+def pep427(fn: str):
+    """PEP 427 reading of a wheel file name: (name, version, build, python field, abi field, platform field) or None.
+    The compatibility tags are the last three dash-separated parts; a sixth part is the build tag."""
+    if not fn.endswith(".whl"):
+        return None
+    parts = os.path.basename(fn)[:-4].split("-")
+    if len(parts) == 5:
+        return (parts[0], parts[1], "", parts[2], parts[3], parts[4])
+    if len(parts) == 6:
+        return (parts[0], parts[1], parts[2], parts[3], parts[4], parts[5])
+    return None
+
+
+ORACLE_BUILDS = ["", "", "1", "7", "2b", "20240101"]
+
+
+def _with_build(rng, fn: str) -> str:
+    """insert an optional build tag into name-version-py-abi-plat.whl (the tag set is unchanged: PEP 427)"""
+    b = rng.choice(ORACLE_BUILDS)
+    if not b:
+        return fn
+    parts = fn[:-4].split("-")
+    return "-".join(parts[:2] + [b] + parts[2:]) + ".whl" if len(parts) == 5 else fn
 
 
 def _known_defect(cfg, pyf: str, abif: str, platf: str) -> bool:
@@ -849,17 +973,18 @@ def oracle_cases(rng, R, n: int):
                     abif = ".".join(rng.sample([abi, other], 2))
             if any(ch in pyf + platf for ch in "-/\\\n ") or _known_defect(cfg, pyf, abif, platf):
                 continue
-            yield {"kind": "supported", "cfg": cfg, "tag": [py, abi, plat], "file": "x-1.0-{}-{}-{}.whl".format(pyf, abif, platf)}
+            yield {"kind": "supported", "cfg": cfg, "tag": [py, abi, plat],
+                   "file": _with_build(rng, "x-1.0-{}-{}-{}.whl".format(pyf, abif, platf))}
         elif r < 0.75:
             why, fn = _gen_foreign(rng, cfg)
-            yield {"kind": "foreign", "cfg": cfg, "why": why, "file": fn}
+            yield {"kind": "foreign", "cfg": cfg, "why": why, "file": _with_build(rng, fn)}
         else:
             tags = packaging_tags(raw)
             files, sigs = [], set()
             for (py, abi, plat) in rng.sample(tags, min(len(tags), rng.choice([2, 3, 4, 5]))):
                 if _known_defect(cfg, py, abi, plat):
                     continue
-                build = rng.choice(["", "", "1"])
+                build = rng.choice(["", "", "1", "2b"])
                 fn = "x-1.0{}-{}-{}-{}.whl".format("-" + build if build else "", py, abi, plat)
                 sig = (build, _spec_score(cfg, py, abi, plat, fn))
                 if sig[1] is None or sig in sigs:
@@ -913,14 +1038,13 @@ def _search(ctx: Ctx) -> Optional[Dict[str, Any]]:
     for mm in ctx.mismatches:
         case = mm.get("case")
         c = case.get("case") if isinstance(case, dict) else None
-        if mm["where"] in ("check-usability", "tag-score") and c and isinstance(c[1], str) and c[0] not in ("running", "corpus"):
+        if mm["where"] in ("check-usability", "tag-score", "file-usability") and c and isinstance(c[1], str) and c[0] not in ("running", "corpus"):
             cfg = json.loads(c[0])
             fn = c[1]
-            if fn.endswith(".whl") and fn.count("-") in (4, 5):
-                parts = fn[:-4].split("-")
-                pyf, abif, platf = parts[-3], parts[-2], parts[-1]
-                suspects += _suspects_from_wheel(R, cfg, fn, pyf, abif, platf)
-        if mm["where"] == "sort-candidates" and c:
+            rd = pep427(fn)
+            if rd is not None and "/" not in fn:
+                suspects += _suspects_from_wheel(R, cfg, fn, rd[3], rd[4], rd[5])
+        if mm["where"] in ("sort-candidates", "file-sort") and c:
             cfg = json.loads(c[0])
             files = [f for f in c[1] if isinstance(f, str)]
             if len(files) >= 2:
@@ -934,11 +1058,12 @@ def _search(ctx: Ctx) -> Optional[Dict[str, Any]]:
     rr = running_raw(R)
     rcfg = impl_cfg_of(R, rr)
     for t in PT.sys_tags():
-        s = {"kind": "supported", "cfg": rcfg, "tag": [t.interpreter, t.abi, t.platform], "unpatched": True,
-             "file": "x-1.0-{}-{}-{}.whl".format(t.interpreter, t.abi, t.platform)}
-        why = oracle_case(R, s)
-        if why:
-            return {"input": s, "why": why}
+        for build in ("", "-1", "-2b"):
+            s = {"kind": "supported", "cfg": rcfg, "tag": [t.interpreter, t.abi, t.platform], "unpatched": True,
+                 "file": "demo_pkg-1.0{}-{}-{}-{}.whl".format(build, t.interpreter, t.abi, t.platform)}
+            why = oracle_case(R, s)
+            if why:
+                return {"input": s, "why": why}
     g = reference_glibc()
     if g is not None:
         for newer in ((g[0], g[1] + 1), (g[0], g[1] + 9), (g[0] + 1, 0)):
